@@ -221,13 +221,20 @@ func (ft *fileTx) t4Func(fd *ast.FuncDecl, fname string) bool {
 					ft.reads(r, &rd)
 				}
 			case *ast.IfStmt:
+				ft.simple(s.Init, &rd, &wr)
 				ft.reads(s.Cond, &rd)
 			case *ast.ForStmt:
+				ft.simple(s.Init, &rd, &wr)
 				ft.reads(s.Cond, &rd)
+				ft.simple(s.Post, &rd, &wr)
 			case *ast.RangeStmt:
 				ft.reads(s.X, &rd)
 			case *ast.SwitchStmt:
+				ft.simple(s.Init, &rd, &wr)
 				ft.reads(s.Tag, &rd)
+			case *ast.TypeSwitchStmt:
+				ft.simple(s.Init, &rd, &wr)
+				ft.simple(s.Assign, &rd, &wr)
 			case *ast.DeclStmt:
 				ft.reads(s.Decl, &rd)
 			}
@@ -268,6 +275,34 @@ func (ft *fileTx) t4Func(fd *ast.FuncDecl, fname string) bool {
 		*lp = out
 	}
 	return changed
+}
+
+// simple collects the accesses of a simple statement used as the Init/Post/Assign part of a
+// compound statement (approximation: they are reported before the compound statement).
+func (ft *fileTx) simple(st ast.Stmt, rd, wr *[]t4loc) {
+	switch s := st.(type) {
+	case nil:
+	case *ast.AssignStmt:
+		for _, l := range s.Lhs {
+			if t, ok := ft.writeTarget(l); ok {
+				*wr = append(*wr, t)
+			}
+			if ix, ok := l.(*ast.IndexExpr); ok {
+				ft.reads(ix.Index, rd)
+			}
+		}
+		for _, r := range s.Rhs {
+			ft.reads(r, rd)
+		}
+	case *ast.IncDecStmt:
+		if t, ok := ft.writeTarget(s.X); ok {
+			*wr = append(*wr, t)
+		}
+	case *ast.ExprStmt:
+		ft.reads(s.X, rd)
+	case *ast.DeclStmt:
+		ft.reads(s.Decl, rd)
+	}
 }
 
 func addrOfMutex(ft *fileTx, mu ast.Expr) ast.Expr {
